@@ -168,6 +168,32 @@ fn budget(p: &Profile, tier: Tier) -> (u32, u32) {
     (((cases as f64 * scale).ceil() as u32).max(if cases > 0 { 1 } else { 0 }), scheds)
 }
 
+/// The scenario of one generated case: the property's own generator, or - for a quarter of the
+/// cases of a property whose oracle is generic over scenarios - the generator of another property
+/// (`Profile::borrow`), with a final stop + get_state + get_metrics appended.
+pub fn build_case(p: &'static Profile, raw: &Raw, tier: Tier) -> (Scenario, Option<&'static str>) {
+    let lender: Option<&'static Profile> = if !p.borrow.is_empty() && raw.alt % 4 == 0 {
+        crate::props::by_id(p.borrow[(raw.alt as usize / 4) % p.borrow.len()])
+    } else {
+        None
+    };
+    match lender {
+        Some(l) => {
+            let mut s = (l.build)(raw, tier, rt::SCHED);
+            // make sure every store is stopped and then read (state, metrics) at the end
+            for ix in 0..s.stores.len() {
+                s.epilogue.push(Op::Stop { store: ix, via_trait: false });
+            }
+            for ix in 0..s.stores.len() {
+                s.epilogue.push(Op::GetState { store: ix });
+                s.epilogue.push(Op::GetMetrics { store: ix });
+            }
+            (s, Some(l.id))
+        }
+        None => ((p.build)(raw, tier, rt::SCHED), None),
+    }
+}
+
 /// Judge one scenario on one schedule. Returns Err(message) for a violation that is not a listed
 /// known finding.
 #[allow(clippy::too_many_arguments)]
@@ -401,27 +427,8 @@ pub fn run_profile(p: &'static Profile, cfg: &RunCfg) -> Report {
                         return Ok(());
                     }
                     // a quarter of the cases use the generator of another property (same oracle)
-                    let lender: Option<&'static Profile> = if !p.borrow.is_empty() && raw.alt % 4 == 0 {
-                        crate::props::by_id(p.borrow[(raw.alt as usize / 4) % p.borrow.len()])
-                    } else {
-                        None
-                    };
-                    let borrowed = lender.map(|l| l.id);
-                    let scn = match lender {
-                        Some(l) => {
-                            let mut s = (l.build)(&raw, tier, rt::SCHED);
-                            // make sure every store is stopped and then read (state, metrics) at the end
-                            for ix in 0..s.stores.len() {
-                                s.epilogue.push(Op::Stop { store: ix, via_trait: false });
-                            }
-                            for ix in 0..s.stores.len() {
-                                s.epilogue.push(Op::GetState { store: ix });
-                                s.epilogue.push(Op::GetMetrics { store: ix });
-                            }
-                            Arc::new(s)
-                        }
-                        None => Arc::new((p.build)(&raw, tier, rt::SCHED)),
-                    };
+                    let (scn, borrowed) = build_case(p, &raw, tier);
+                    let scn = Arc::new(scn);
                     if !in_shrink {
                         stats.lock().unwrap().cases += 1;
                     }
